@@ -62,6 +62,73 @@ def shape(cvs, ranges, bounds, excl):
     return ("?", tuple(sorted(cvs)), tuple(sorted(ranges)) + tuple(sorted(bounds)))
 
 
+def is_mandatory_table(C, g):
+    """(ok, counterexample): EdgeInfo::is_mandatory evaluated over fold state x optional x recursive."""
+    import itertools
+    from tfv import absint as A
+    from tfv import stdmodel as M
+    FS = HINTS + "::FoldState"
+    adt = C.adt_by_path.get(FS)
+    states = [v["name"] for v in adt["variants"]] if adt else []
+    if "FoldedOptional" not in states:
+        return False, "FoldState has no FoldedOptional variant (model out of date; fail closed)"
+    try:
+        for fs, opt, rec in itertools.product(states, (False, True), (False, True)):
+            me = A.Struct(HINTS + "::EdgeInfo", {"folded": A.Enum(FS, fs), "optional": opt,
+                                                "recursive": M.some(A.Sym("recursive")) if rec else M.none()})
+            val = A.deref(A.Interp(C, M.intrinsics()).call_fn(g, [me]))
+            if not isinstance(val, bool):
+                return False, "is_mandatory evaluates to %r" % (val,)
+            if val and (fs == "FoldedOptional" or opt or rec):
+                return False, {"folded": fs, "optional": opt, "recursive": rec}
+    except A.Unsupported as e:
+        return False, "cannot be evaluated (%s; fail closed)" % e
+    except A.PanicReached as e:
+        return False, "it panics (%s)" % e.what
+    return True, None
+
+
+def semantic_guard(C, f):
+    """True if the VertexInfo method f, evaluated with non_binding_filters() = true and with every other source of information about
+    the vertex raising, returns "no information" (None / an empty iterator); otherwise a string saying what happened."""
+    from tfv import absint as A
+    from tfv import stdmodel as M
+
+    class Touched(Exception):
+        pass
+
+    def touch(what):
+        def h(ip, n, a):
+            raise Touched(what)
+        return h
+    I = M.intrinsics()
+    VIp = HINTS + "::vertex_info::"
+    I[VIp + "InternalVertexInfo::non_binding_filters"] = lambda ip, n, a: True
+    for nm in ("current_vertex", "current_component", "starting_component", "query", "query_variables", "execution_frontier",
+               "make_non_folded_edge_info", "make_folded_edge_info"):
+        I[VIp + "InternalVertexInfo::" + nm] = touch(nm)
+    for nm in ("edges_with_name", "statically_required_property", "required_properties", "first_edge"):
+        I[VIp + "VertexInfo::" + nm] = touch(nm)
+    I["core::iter::sources::empty::empty"] = lambda ip, n, a: M.IterV([])
+    I["alloc::boxed::Box::<T>::new"] = lambda ip, n, a: a[0]
+    try:
+        res = A.deref(A.Interp(C, I).call_fn(f, [A.Sym("self")] + ["p"] * (len(f["params"]) - 1)))
+    except Touched as t:
+        return "it reads %s()" % t
+    except A.Unsupported as e:
+        return "not evaluable (%s)" % e
+    except A.PanicReached as e:
+        return "it panics (%s)" % e.what
+    if isinstance(res, A.Enum) and res.variant == "None":
+        return True
+    if isinstance(res, M.IterV):
+        try:
+            return True if not list(res) else "it yields elements"
+        except Touched as t:
+            return "its iterator reads %s()" % t
+    return "it returns %r" % (res,)
+
+
 def run(ctx, R):
     C = ctx.core
     R.rule("r1", "candidate tables: each Operation arm that yields a candidate uses a shape that contains every "
@@ -197,6 +264,15 @@ def run(ctx, R):
             if list(calls_in(s0)):
                 why = "code precedes the guard: %s" % ekey(s0)[:80]
                 break
+        if not ok:
+            # the guard is not in the usual `if self.non_binding_filters() { return <nothing> }` shape: decide it semantically -
+            # with non_binding_filters() = true and every other source of information about the vertex off limits, the method
+            # must still evaluate, to "no information"
+            sem = semantic_guard(C, f)
+            if sem is True:
+                ok = True
+            elif isinstance(sem, str):
+                why = "%s; evaluated with non_binding_filters() = true: %s" % (why, sem)
         R.check(ok, "r2", "guard/%s" % name, C.loc(f["sp"]),
                 "VertexInfo::%s reads binding filter/edge information without the non-binding guard: %s" % (name, why))
     # first_mandatory_edge must go through mandatory_edges_with_name
@@ -351,6 +427,10 @@ def run(ctx, R):
                 ok = False
                 bad = {"folded_optional": fo, "optional": opt, "recursive": rec}
                 break
+        if not ok and isinstance(bad, str):
+            # the expression is not in a shape the formula extractor reads (named booleans, early returns ...): decide the same
+            # table by abstract evaluation of the method over every (fold state, optional, recursive) combination
+            ok, bad = is_mandatory_table(C, g)
         R.check(ok, "r4", "is_mandatory", C.loc(g["sp"]),
                 "EdgeInfo::is_mandatory claims an edge mandatory when %s" % (bad,), detail={"atoms": [str(a) for a in atoms]})
 
